@@ -657,7 +657,7 @@ class SoftPiecewiseConstantCoalescentGrid(ConstantCoalescent):
                 keepdim=True,
             )
         else:
-            grid0 = torch.cat((torch.zeros(batch_shape + (1,)), grid), -1).unsqueeze(-2)
+            grid0 = torch.cat((grid.new_zeros(batch_shape + (1,)), grid), -1).unsqueeze(-2)
             pairwise_dist = heights_sorted[..., 1:].unsqueeze(-1) - grid0
             mat = (
                 (
@@ -954,7 +954,7 @@ class PiecewiseLinearCoalescentGrid(Distribution):
         else:
             batch_shape = self.theta.shape[:-1]
 
-        grid = torch.cat((torch.tensor([-1.0]), self.grid)).expand(
+        grid = torch.cat((self.grid.new_tensor([-1.0]), self.grid)).expand(
             batch_shape + torch.Size([-1])
         )
 
@@ -999,7 +999,7 @@ class PiecewiseLinearCoalescentGrid(Distribution):
         indices = torch.argsort(grid_heights, descending=False)
         grid_heights_sorted = torch.gather(grid_heights, -1, indices)
         grid_heights_sorted[..., 0] = 0
-        grid = torch.cat((torch.tensor([0.0]), self.grid)).expand(
+        grid = torch.cat((self.grid.new_tensor([0.0]), self.grid)).expand(
             batch_shape + torch.Size([-1])
         )
         event_mask_sorted = torch.gather(event_mask, -1, indices)
